@@ -74,6 +74,51 @@ type editsDefect struct {
 
 func strN(n int) string { return strings.Repeat("c", n) }
 
+// decorateDefect adds valid optional members (those the element does not have yet) to a defective list element:
+// the one defect must reject the document whatever else the element carries.
+func decorateDefect(t *rapid.T, doc obj, list string, o obj) (added []string) {
+	type member struct {
+		key  string
+		val  any
+		minV string
+		with map[string]any // members that go along with it
+	}
+	var cands []member
+	switch list {
+	case "deviceNodes":
+		cands = []member{{key: "hostPath", val: "/dev/vy", minV: "0.5.0"}, {key: "type", val: "c", with: map[string]any{"major": num("1")}}, {key: "minor", val: num("3")},
+			{key: "fileMode", val: num("420")}, {key: "uid", val: num("0")}, {key: "gid", val: num("7")}, {key: "permissions", val: "rw"}}
+	case "hooks":
+		cands = []member{{key: "args", val: []any{"h", "--x"}}, {key: "env", val: []any{"HOOK=1"}}, {key: "timeout", val: num("5")}}
+	case "mounts":
+		cands = []member{{key: "options", val: []any{"ro", "bind"}}, {key: "type", val: "bind", minV: "0.4.0"}}
+	}
+	for _, m := range cands {
+		if _, has := o[m.key]; has {
+			continue
+		}
+		clash := false
+		for k := range m.with {
+			if _, has := o[k]; has {
+				clash = true
+			}
+		}
+		if clash || !rapid.Bool().Draw(t, "decorate-"+m.key) {
+			continue
+		}
+		o[m.key] = m.val
+		for k, v := range m.with {
+			o[k] = v
+		}
+		if m.minV != "" {
+			ensureVersion(doc, m.minV)
+		}
+		added = append(added, m.key)
+	}
+	sort.Strings(added)
+	return added
+}
+
 var editsDefects = []editsDefect{
 	{name: "env-no-assignment", list: "env", elem: func() any { return "NOASSIGNMENT" }},
 	{name: "env-leading-eq", list: "env", elem: func() any { return "=value" }},
@@ -290,13 +335,14 @@ var gatedFeatures = []struct {
 }
 
 type c05Case struct {
-	Valid   bool   `json:"valid"`
-	Defect  string `json:"defect"`
-	Where   string `json:"where"` // "", spec, device-first, device-middle, device-last, device-only
-	First   bool   `json:"firstElem"`
-	NDev    int    `json:"nDev"`
-	Doc     any    `json:"doc"`
-	nontriv bool
+	Valid     bool     `json:"valid"`
+	Defect    string   `json:"defect"`
+	Where     string   `json:"where"` // "", spec, device-first, device-middle, device-last, device-only
+	First     bool     `json:"firstElem"`
+	Decorated []string `json:"defectiveElementAlsoHas,omitempty"`
+	NDev      int      `json:"nDev"`
+	Doc       any      `json:"doc"`
+	nontriv   bool
 }
 
 func devPos(k, n int) string {
@@ -357,7 +403,11 @@ func genC05(t *rapid.T, wantValid bool) c05Case {
 		e := editsOf(doc, dev)
 		c.First = rapid.Bool().Draw(t, "firstElem")
 		if d.list != "" {
-			insertElem(e, d.list, d.elem(), c.First)
+			el := d.elem()
+			if o, ok := el.(obj); ok && rapid.Bool().Draw(t, "decorateDefect") {
+				c.Decorated = decorateDefect(t, doc, d.list, o)
+			}
+			insertElem(e, d.list, el, c.First)
 		} else {
 			d.mut(e)
 		}
@@ -552,6 +602,12 @@ func (c c05Case) labels() []string {
 	l := []string{"defect", "defect:" + c.Defect, "where:" + c.Where, "cell:" + c.Defect + "@" + c.Where}
 	if c.nontriv {
 		l = append(l, "defect-in-non-last-device")
+	}
+	if len(c.Decorated) > 0 {
+		l = append(l, "defective-element-with-valid-optional-members")
+		for _, k := range c.Decorated {
+			l = append(l, "decorated:"+c.Defect+"+"+k)
+		}
 	}
 	return l
 }
